@@ -4,12 +4,20 @@ from symx.driver import run_check
 
 
 def jobs(tier):
-    return pipeline_jobs("c01", tier)
+    js = pipeline_jobs("c01", tier)
+    # the property's observation point is the molfile reader: the same relistings expressed in files
+    t = tier == "thorough"
+    strata = [dict(name="reader/v3000/S-shape", ns=[2, 3] + ([4] if t else []), pin={3: 3, 4: 6}, params=dict(K_m=1, K_r=1)),
+              dict(name="reader/v3000/S-elem4", ns=[2] + ([3] if t else []), pin={3: 3}, params=dict(K_m=1, K_r=0, alphabet=SIGMA_T4)),
+              dict(name="reader/v2000/S-shape", ns=[2, 3], pin={3: 3}, params=dict(K_m=1, K_r=1, v2000=True))]
+    js += shape_strata("harness.readers", "c01_reader", tier, quick=strata, thorough=strata, max_seconds=3000 if t else 240)
+    return js
 
 
 def main(tier):
     return run_check(
         "C01", tier, jobs(tier), bounds=std_bounds(tier),
         assumptions=STD_ASSUME + ["invariance under every adjacent transposition for every member of a stratum closed under relabelling implies invariance under all n! relabelings inside the stratum"],
-        outside=["n > 5 beyond the curated skeletons", "bond-listing permutations other than the listed generators", "the molfile readers (reader-level relistings are part of C06/C07/C08)"],
+        outside=["n > 5 beyond the curated skeletons/molecules", "bond-listing permutations other than the listed generators", "reader-level relistings beyond n = 3 (quick) / 4 (thorough)"],
+        stubs=["module attribute `int`/`float` of the reader modules shadowed (reader-level jobs)"],
         explanation="DSE of graph_from_molecule->canonicalize_molecule->serialize_molecule on two listings of one abstract molecule; obligation: the two emitted strings are equal for all label values on the path")
